@@ -22,6 +22,27 @@ def _error_class(ctx: Ctx, name: str) -> ClassInfo:
     raise AnalysisError(f'error class {name} not found')
 
 
+def _derived_from_candidates(ctx: Ctx, expr: ast.AST, inst, depth: int = 0) -> bool:
+    """The expression is (built from) the declared candidate list `oneof_nodes`: directly, through enumerate / list / a
+    comprehension over it, or through a local that holds such a value."""
+    if depth > 4:
+        return False
+    it = sym.term(ctx.p, expr, inst)
+    if sym.mentions(it, lambda s: isinstance(s, tuple) and s[0] == 'global' and s[1].endswith('NodeField.oneof_nodes')):
+        return True
+    for n in ast.walk(expr):
+        if isinstance(n, (ast.ListComp, ast.GeneratorExp, ast.SetComp, ast.DictComp)):
+            for gen in n.generators:
+                gt = sym.term(ctx.p, gen.iter, inst)
+                if sym.mentions(gt, lambda s: isinstance(s, tuple) and s[0] == 'global' and s[1].endswith('NodeField.oneof_nodes')):
+                    return True
+        if isinstance(n, ast.Name) and isinstance(n.ctx, ast.Load):
+            e, i = sym.resolve_value(ctx.p, n, inst)
+            if e is not n and e is not None and i is inst and _derived_from_candidates(ctx, e, i, depth + 1):
+                return True
+    return False
+
+
 def candidate_loops(ctx: Ctx, g: Graph) -> List[Tuple[Ev, set, Ev, Ev]]:
     """Loops over the `oneof_nodes` attribute that spawn a dag per element and wait for it:
     (loop, region, spawn event, wait event)."""
@@ -29,8 +50,7 @@ def candidate_loops(ctx: Ctx, g: Graph) -> List[Tuple[Ev, set, Ev, Ev]]:
     for lp in g.events('loop'):
         if lp.info.get('comp') is not None:
             continue
-        it = sym.term(ctx.p, lp.info['iter'], lp.inst)
-        if not sym.mentions(it, lambda s: isinstance(s, tuple) and s[0] == 'global' and s[1].endswith('NodeField.oneof_nodes')):
+        if not _derived_from_candidates(ctx, lp.info['iter'], lp.inst):
             continue
         region = loop_region(g, lp, labels=EXC_LABELS)
         spawns = [g.evs[m] for m in sorted(region) if g.evs[m].kind == 'call' and ctx.roles.spawn(g.evs[m])]
@@ -109,11 +129,20 @@ def rule_oneof_sequential(ctx: Ctx, out: Collector) -> None:
             cons2 = f'{unit.module.name}::{unit.qualname}::candidates are tried in declared order'
             it = lp.info['iter']
             txt = unparse(it)
-            bad_wrappers = [w for w in ('sorted(', 'reversed(', 'set(', 'shuffle', 'sample(') if w in txt]
-            e, i = sym.resolve_value(ctx.p, it, lp.inst)
-            if isinstance(e, ast.Call) and isinstance(e.func, ast.Name) and e.func.id == 'enumerate' and e.args:
-                e = e.args[0]
-            direct = isinstance(e, ast.Subscript) and 'oneof_nodes' in unparse(e)
+            def order_preserving(e, inst, depth=0):
+                """-> (derived from the declared list by order-preserving steps only, text of the first reordering step)"""
+                if depth > 5:
+                    return False, unparse(e)[:40]
+                e, inst = sym.resolve_value(ctx.p, e, inst)
+                if isinstance(e, ast.Subscript) and 'oneof_nodes' in unparse(e):
+                    return True, ''
+                if isinstance(e, ast.Call) and isinstance(e.func, ast.Name) and e.func.id in ('enumerate', 'list', 'tuple', 'iter') and e.args:
+                    return order_preserving(e.args[0], inst, depth + 1)
+                if isinstance(e, (ast.ListComp, ast.GeneratorExp)) and len(e.generators) == 1 and not e.generators[0].ifs:
+                    return order_preserving(e.generators[0].iter, inst, depth + 1)
+                return False, unparse(e)[:40]
+            direct, why_not = order_preserving(it, lp.inst)
+            bad_wrappers = [] if direct else [why_not]
             if bad_wrappers or not direct:
                 out.bad('OO-2', cons2, lp.where(), f'the candidate loop iterates {txt}, not the declared oneof_nodes list itself: '
                                                    f'candidates are not tried in declared order')
@@ -121,6 +150,59 @@ def rule_oneof_sequential(ctx: Ctx, out: Collector) -> None:
                 out.ok('OO-2', cons2, lp.where(), f'iterates {txt}')
     if n == 0:
         raise AnalysisError('no one-of candidate loop found (OO-1 anchor vanished)')
+
+
+def rule_candidate_started_lazily(ctx: Ctx, out: Collector) -> None:
+    """OO-10: sub-dags computed later in the run show a one-of candidate only if it has been started (the set of started
+    candidates is what the node filter of the reduced dag consults).  A candidate must therefore be recorded as started only
+    in the iteration of the candidate loop that starts it - not for all candidates up front, or candidates that are never tried
+    (and the nodes only they need) become ordinary nodes of every later sub-dag and are executed."""
+    n = 0
+    seen = set()
+    mgr = ctx.manager_class()
+    for fid, g in ctx.run_graphs().items():
+        for lp, region, spawn, wait in candidate_loops(ctx, g):
+            unit = lp.inst.unit
+            cons = f'{unit.module.name}::{unit.qualname}::a candidate is recorded as started only when it is started [lazy candidates]'
+            if cons in seen:
+                continue
+            seen.add(cons)
+            # events that record a started candidate: `.add(..)` on a per-run set field of the manager, executed (inlined) by the
+            # function that builds the reduced dag of a candidate
+            marks = []
+            for ev in g.events('call'):
+                c = ev.node
+                if not (isinstance(c, ast.Call) and isinstance(c.func, ast.Attribute) and c.func.attr in ('add', 'append', 'update') and c.args):
+                    continue
+                recv = sym.term(ctx.p, c.func.value, ev.inst)
+                if not (isinstance(recv, tuple) and recv[0] == 'attr' and recv[1] == ('param', 'self')):
+                    continue
+                src = unparse(ev.inst.unit.node)
+                if 'subgraph_view' in src or 'get_connected_subgraph' in src:
+                    # only activations below the one-of function count
+                    i = ev.inst
+                    below = False
+                    while i is not None:
+                        if i is lp.inst:
+                            below = True
+                        i = i.parent
+                    if below:
+                        marks.append(ev)
+            if not marks:
+                continue
+            n += 1
+            outside = [ev for ev in marks if ev.id not in region]
+            if not outside:
+                out.ok('OO-10', cons, lp.where(), f'{len(marks)} recording site(s), all inside the iteration that starts the candidate')
+            else:
+                ev = outside[0]
+                out.bad('OO-10', cons, ev.where(), f'{ev.text(70)} records candidates as started outside the iteration that starts them '
+                        f'(all candidates are prepared before the first one is tried): every sub-dag computed later in the run - a switch '
+                        f'case or a second one-of downstream - contains the untried candidates as ordinary nodes and executes them; '
+                        f'a failure of such a candidate fails the run although an earlier candidate succeeded',
+                        [f'reached through {ev.inst.chain()}'])
+    if n == 0:
+        raise AnalysisError('no site recording a started one-of candidate found below the candidate loop (OO-10 anchor vanished)')
 
 
 def rule_oneof_exhaustion(ctx: Ctx, out: Collector) -> None:
